@@ -638,6 +638,12 @@ pub fn enum_tree(i: u64) -> Option<Expr> {
         Expr::Str(b"l1\nl2\r\nl3\nl4\nl5\nl6\nl7 ]] ]=] ]==]".to_vec(), String::new()),
         Expr::Str(b"a long text that closes brackets ]] and ]=] and even ]==] before it ends with ]".to_vec(), String::new()),
         Expr::Str(b"\nfirst character is a line feed and the text is long enough for the bracket form".to_vec(), String::new()),
+        // bytes >= 0x80: valid UTF-8 text, bytes that are not UTF-8, a single high byte, and non-ASCII text inside an
+        // interpolated string
+        Expr::Str("caf\u{e9} \u{20ac} \u{65e5}\u{672c}".as_bytes().to_vec(), String::new()),
+        Expr::Str(vec![0xff, 0xd8, 0xff, 0xe0, b'1'], String::new()),
+        Expr::Str(vec![0xff], String::new()),
+        Expr::Interp(vec![InterpPart::Str("Prix: ".as_bytes().to_vec()), InterpPart::Expr(Expr::name("x")), InterpPart::Str(" \u{20ac} (caf\u{e9})".as_bytes().to_vec())]),
     ];
     let ns = special.len() as u64;
     let b5 = ns * n * 2 + ns * 3 + ns;
@@ -658,6 +664,26 @@ pub fn enum_tree(i: u64) -> Option<Expr> {
         return Some(special[i as usize].clone());
     }
     None
+}
+
+/// pairs of statements whose last / first tokens meet every combination of character classes: the generator has to keep
+/// them apart (`a1` followed by `_f()` must not become `a1_f()`)
+pub fn boundary_pairs() -> Vec<String> {
+    let firsts = [
+        "local x = 1", "local x = a1", "local x = a_", "local x = 0x1f", "local x = 1e1", "local x = .5", "local x = 5.", "x = a.b1", "f(a1)", "x = 'a'", "x = {}", "x = a[1]", "local x = ...", "x = 5 .. a", "x = #a", "x = -1", "x = not a", "local x = nil", "x = function() end",
+        "local x: number = 1", "x = a :: any", "x += a1", "x = `a{b}`", "return_ = 1", "break_ = 1", "goto_ = 1",
+    ];
+    let seconds = [
+        "_f()", "_G.v = 1", "__ = 1", "f()", "local _ = 1", "return", "e1()", "E = 1", "x1 = 1", "do end", "if a then end", "while a do end", "a.b = 1", "a:b()", "repeat until a", "for i = 1, 2 do end", "function f() end", "local function g() end", "and_ = 1", "or_ = 1", "in_ = 1",
+        "type T = number", "export type U = string", "continue_ = 1", "x ..= 'a'",
+    ];
+    let mut v = vec![];
+    for a in firsts {
+        for b in seconds {
+            v.push(format!("{}\n{}\n", a, b));
+        }
+    }
+    v
 }
 
 /// thorough tier: every chain of four binary operators over five leaves in six nestings (16^4 x 6 trees)
@@ -693,7 +719,7 @@ pub fn enum4_tree(i: u64) -> Option<Expr> {
 }
 
 /// number of entries of the `special` operand list of `enum_tree`
-const SPECIALS: u64 = 24;
+const SPECIALS: u64 = 28;
 
 pub fn enum_count() -> u64 {
     let n = 16u64;
@@ -789,7 +815,7 @@ impl Monitor for C02 {
         let mut me = C02::default();
         me.load();
         let d4 = if tier == Tier::Thorough { (enum4_count() + BATCH - 1) / BATCH } else { 0 };
-        let det = (enum_count() + BATCH - 1) / BATCH + me.corpus.len() as u64 + d4;
+        let det = (enum_count() + BATCH - 1) / BATCH + me.corpus.len() as u64 + boundary_pairs().len() as u64 + d4;
         Plan { deterministic: det, max_cases: u64::MAX, budget_s: if tier == Tier::Quick { 40.0 } else { 600.0 } }
     }
     fn floors(&self, _tier: Tier) -> Vec<(String, u64)> {
@@ -805,8 +831,14 @@ impl Monitor for C02 {
         if i < self.corpus.len() {
             return Some(json!({"kind": "text", "origin": format!("corpus:{}", self.corpus[i].name), "src": self.corpus[i].text, "spans": [80, 0, 17]}));
         }
+        let i = i - self.corpus.len();
+        let pairs = boundary_pairs();
+        if i < pairs.len() {
+            return Some(json!({"kind": "text", "origin": "boundary-pair", "src": pairs[i], "spans": [80, 0, 1, 9]}));
+        }
+        let i = i - pairs.len();
         if tier == Tier::Thorough {
-            let j = (i - self.corpus.len()) as u64;
+            let j = i as u64;
             let nb4 = (enum4_count() + BATCH - 1) / BATCH;
             if j < nb4 {
                 return Some(json!({"kind": "enum4", "from": j * BATCH, "to": ((j + 1) * BATCH).min(enum4_count())}));
